@@ -1,0 +1,31 @@
+//go:build verif
+
+package calcium
+
+import (
+	"github.com/projecteru2/core/resource"
+	"github.com/projecteru2/core/store"
+	"github.com/projecteru2/core/wal"
+)
+
+// Verification hooks (build tag `verif` only): accessors that let an external
+// harness wrap the collaborators of a real Calcium with interception layers.
+// Nothing here changes behaviour; without the tag the file is not compiled.
+
+// VerifStore returns the metadata store in use.
+func (c *Calcium) VerifStore() store.Store { return c.store }
+
+// VerifSetStore replaces the metadata store.
+func (c *Calcium) VerifSetStore(s store.Store) { c.store = s }
+
+// VerifRmgr returns the resource manager in use.
+func (c *Calcium) VerifRmgr() resource.Manager { return c.rmgr }
+
+// VerifSetRmgr replaces the resource manager.
+func (c *Calcium) VerifSetRmgr(m resource.Manager) { c.rmgr = m }
+
+// VerifWAL returns the write-ahead log in use.
+func (c *Calcium) VerifWAL() wal.WAL { return c.wal }
+
+// VerifSetWAL replaces the write-ahead log.
+func (c *Calcium) VerifSetWAL(w wal.WAL) { c.wal = w }
